@@ -15,6 +15,9 @@ from sqlglot.helper import csv, name_sequence, seq_get
 from sqlglot.jsonpath import ALL_JSON_PATH_PARTS, JSON_PATH_PART_TRANSFORMS
 from sqlglot.time import format_time
 from sqlglot.tokens import TokenType
+from sqlglot import _verif
+
+_VERIF = _verif.ENABLED
 
 if t.TYPE_CHECKING:
     from sqlglot._typing import E
@@ -934,9 +937,15 @@ class Generator:
 
         cls = type(self)
         dispatch = _DISPATCH_CACHE.get(cls)
+        if _VERIF:
+            _verif.emit("dispatch_probe", cls=cls.__module__, hit=dispatch is not None)
         if dispatch is None:
             dispatch = _build_dispatch(cls)
+            if _VERIF:
+                _verif.emit("dispatch_built", cls=cls.__module__)
             _DISPATCH_CACHE[cls] = dispatch
+            if _VERIF:
+                _verif.emit("dispatch_published", cls=cls.__module__)
         self._dispatch = dispatch
 
     def generate(self, expression: exp.Expr, copy: bool = True) -> str:
@@ -996,6 +1005,8 @@ class Generator:
         return expression
 
     def unsupported(self, message: str) -> None:
+        if _VERIF:
+            _verif.emit("unsupported", level=self.unsupported_level.name, message=message)
         if self.unsupported_level == ErrorLevel.IMMEDIATE:
             raise UnsupportedError(message)
         self.unsupported_messages.append(message)
@@ -1118,6 +1129,9 @@ class Generator:
             if value:
                 return self.sql(value)
             return ""
+
+        if _VERIF:
+            _verif.step("g")
 
         handler = self._dispatch.get(expression.__class__)
 
